@@ -44,7 +44,7 @@ def all_or_nothing(steps):
     return out
 
 
-def run(pid, tier, seed, oracle_names, title, feats=None, check_c07=False, extra=None):
+def run(pid, tier, seed, oracle_names, title, feats=None, check_c07=False, extra=None, solver_feats=None):
     chk = FW.Check(pid, tier, seed)
     if not chk.builds(model=True, harness=True):
         return chk.finish()
@@ -74,7 +74,16 @@ def run(pid, tier, seed, oracle_names, title, feats=None, check_c07=False, extra
                            "case": G.case_lines(r["case"]["model"], r["case"]["ops"][:stepno])})
     chk.ob("%s on every intermediate state of the histories (implementation's snapshots, recomputed from the input)" % title, nviol == 0)
     # real solver output
-    sc = S.make_solve_cases(seed * 2003 + int(pid[1:]), ns, solver_settings, size=size, feats=feats)
+    sc = S.make_solve_cases(seed * 2003 + int(pid[1:]), ns, solver_settings, size=size, feats=solver_feats or feats)
+    for k, cc in enumerate(FW.load_corpus(pid)):
+        if cc.get("kind") == "solve":
+            m = cc["model"]
+            m["arcs"] = [tuple(a) for a in m["arcs"]]
+            for u in m["units"]:
+                u["arcs"] = [tuple(a) for a in u["arcs"]]
+            for st_ in m["stops"]:
+                st_["windows"] = [tuple(w) for w in st_["windows"]]
+            sc.insert(0, {"id": "corpus%d" % k, "model": m, "settings": cc["settings"]})
     runs, rc, err = S.run_solve(sc, "%s_solve_%s" % (pid.lower(), tier), timeout=3000)
     chk.ob("harness solve exits normally", rc == 0, err[-300:])
     byid = {c["id"]: c for c in sc}
